@@ -170,14 +170,73 @@ for w, what, muts in [
      [dict(name='marks-keys-instead', file='gc.c', find='static void janet_mark_values(const JanetKV *kvs, int32_t n) {\n    const JanetKV *end = kvs + n;\n    while (kvs < end) {\n        janet_mark(kvs->value);', replace='static void janet_mark_values(const JanetKV *kvs, int32_t n) {\n    const JanetKV *end = kvs + n;\n    while (kvs < end) {\n        janet_mark(kvs->key);', expect='C01 walker')]),
     ('kvs', 'janet_mark_kvs: janet_mark is called for the key and for the value of every bucket kvs[g] of the range handed over (ghost index) and exactly 2n times; no read outside the range',
      [dict(name='value-not-marked', file='gc.c', find='        janet_mark(kvs->key);\n        janet_mark(kvs->value);\n        kvs++;', replace='        janet_mark(kvs->key);\n        kvs++;', expect='C01 walker'),
-      dict(name='end-off-by-one', file='gc.c', find='static void janet_mark_kvs(const JanetKV *kvs, int32_t n) {\n    const JanetKV *end = kvs + n;', replace='static void janet_mark_kvs(const JanetKV *kvs, int32_t n) {\n    const JanetKV *end = kvs + n - 1;', expect='C01 walker')]),
+      dict(name='stride-two', file='gc.c', find='        janet_mark(kvs->key);\n        janet_mark(kvs->value);\n        kvs++;', replace='        janet_mark(kvs->key);\n        janet_mark(kvs->value);\n        kvs += 2;', expect='C01 walker')]),
 ]:
     unit('gc.walk.' + w, what, 'gc_walk.c', 'h_walk_' + w, cls='bounded', mode='plain', bound=WALK_BOUND,
          replace_calls=['janet_mark:rec_mark'], functions=['janet_mark_' + w], unwind=9, checks=WALK_CHECKS,
          assumes=['janet_mark is replaced by a stub that records its argument in ghost state'], mutants=muts)
 unit('gc.walk.many.null', 'janet_mark_many on a NULL base (array without storage, neutralised closure environment) marks nothing and reads nothing, whatever the count',
      'gc_walk.c', 'h_walk_many_null', cls='full-domain', mode='plain',
-     replace_calls=['janet_mark:rec_mark'], functions=['janet_mark_many'], unwind=2, checks=WALK_CHECKS,
+     replace_calls=['janet_mark:rec_mark'], functions=['janet_mark_many'], unwind=3, unwinding_assertions=False, checks=WALK_CHECKS,
      assumes=['janet_mark is replaced by a stub that records its argument in ghost state'],
-     mutants=[dict(name='no-null-test', file='gc.c', find='    if (values == NULL)\n        return;\n', replace='', expect='C01 walker|pointer|unwind')])
+     mutants=[dict(name='no-null-test', file='gc.c', find='    if (values == NULL)\n        return;\n', replace='', expect='C01 walker|pointer')])
+
+unit('gc.roots.root',
+     'janet_gcroot adds exactly its argument at the end of the root set, keeps root_count <= root_capacity for every size of the set (growing only when full), and no earlier root '
+     '(ghost index) is lost or changed',
+     'gc_roots.c', 'h_gcroot',
+     enforce=['janet_gcroot/janet_gcroot_spec'], replace=['realloc/realloc_c'], functions=['janet_gcroot'], cbmc=['--z3'],
+     assumes=['realloc is replaced by its ISO C contract: NULL or a fresh block of the requested size that preserves the old prefix (observed at the ghost index); the old block is freed'],
+     mutants=[dict(name='capacity-not-recorded', file='gc.c', find='        janet_vm.root_capacity = newcap;\n    }\n    janet_vm.roots[janet_vm.root_count] = root;', replace='    }\n    janet_vm.roots[janet_vm.root_count] = root;', expect='postcondition')])
+unit('gc.roots.root.small',
+     'janet_gcroot with real memory and a copying model of realloc: adds exactly its argument at the end, keeps every earlier root, root_count <= root_capacity, never writes outside the root array, '
+     'reallocates only when full',
+     'gc_roots.c', 'h_gcroot_small', cls='bounded', mode='plain', bound='root sets of at most 5 roots (SAT-checkable companion of gc.roots.root); unwind 14 with unwinding assertions',
+     replace_calls=['realloc:vc_realloc_roots'], functions=['janet_gcroot'], unwind=14, checks=['bounds-check', 'pointer-check', 'signed-overflow-check'],
+     assumes=['realloc is replaced by a model: NULL, or a fresh block with the old contents copied and the old block freed'],
+     mutants=[dict(name='capacity-test-off-by-one', file='gc.c', find='    if (newcount > janet_vm.root_capacity) {\n        size_t newcap = 2 * newcount;', replace='    if (newcount > janet_vm.root_capacity + 1) {\n        size_t newcap = 2 * newcount;', expect='C01 roots|pointer_dereference'),
+              dict(name='count-not-updated', file='gc.c', find='    janet_vm.roots[janet_vm.root_count] = root;\n    janet_vm.root_count = newcount;', replace='    janet_vm.roots[janet_vm.root_count] = root;', expect='C01 roots|pointer_dereference'),
+              dict(name='capacity-not-recorded', file='gc.c', find='        janet_vm.root_capacity = newcap;\n    }\n    janet_vm.roots[janet_vm.root_count] = root;', replace='    }\n    janet_vm.roots[janet_vm.root_count] = root;', expect='C01 roots|pointer_dereference')])
+unit('gc.lock',
+     'janet_gclock returns the previous suspension count and suspends collection (counter non-zero), janet_gcunlock(handle) restores exactly the count the matching lock saw, also when nested',
+     'gc_roots.c', 'h_gclock', cls='full-domain', mode='plain', functions=['janet_gclock', 'janet_gcunlock'], checks=['signed-overflow-check'],
+     mutants=[dict(name='lock-returns-new-count', file='gc.c', find='    return janet_vm.gc_suspend++;', replace='    return ++janet_vm.gc_suspend;', expect='C01 gclock'),
+              dict(name='unlock-decrements', file='gc.c', find='    janet_vm.gc_suspend = handle;', replace='    janet_vm.gc_suspend = handle - 1;', expect='C01 gclock')])
+ROOTS_BOUND = 'root sets of at most 5 roots with arbitrary contents (pointer-walking loop, DESIGN R14); unwind 7 with unwinding assertions'
+ROOTS_CHECKS = ['bounds-check', 'pointer-check', 'signed-overflow-check']
+unit('gc.roots.unroot',
+     'janet_gcunroot removes exactly one occurrence of its argument (GC identity: same type and same heap object) iff it is rooted and reports that; every other root keeps its multiplicity; '
+     'the root array is not moved and root_count <= root_capacity',
+     'gc_roots.c', 'h_gcunroot', cls='bounded', mode='plain', bound=ROOTS_BOUND, functions=['janet_gcunroot', 'janet_gc_idequals'], unwind=7, checks=ROOTS_CHECKS, link=['wrap.c'],
+     mutants=[dict(name='count-not-decremented', file='gc.c', find='            *v = janet_vm.roots[--janet_vm.root_count];\n            return 1;', replace='            *v = janet_vm.roots[janet_vm.root_count - 1];\n            return 1;', expect='C01 roots'),
+              dict(name='last-root-dropped-instead', file='gc.c', find='            *v = janet_vm.roots[--janet_vm.root_count];\n            return 1;', replace='            --janet_vm.root_count;\n            return 1;', expect='C01 roots'),
+              dict(name='type-not-compared', file='gc.c', find='    if (janet_type(lhs) != janet_type(rhs))\n        return 0;\n', replace='', expect='C01 roots')])
+unit('gc.roots.unrootall',
+     'janet_gcunrootall removes only occurrences of its argument and reports whether there was one; every other root keeps its multiplicity; the root array is not moved and root_count <= root_capacity',
+     'gc_roots.c', 'h_gcunrootall', cls='bounded', mode='plain', bound=ROOTS_BOUND, functions=['janet_gcunrootall', 'janet_gc_idequals'], unwind=7, checks=ROOTS_CHECKS, link=['wrap.c'],
+     mutants=[dict(name='vtop-not-lowered', file='gc.c', find='            vtop--;\n', replace='', expect='C01 roots'),
+              dict(name='ret-not-set', file='gc.c', find='            vtop--;\n            ret = 1;', replace='            vtop--;', expect='C01 roots')])
+unit('gc.roots.unrootall.complete',
+     'janet_gcunrootall leaves no occurrence of its argument in the root set ("sets the effective reference count to 0")',
+     'gc_roots.c', 'h_gcunrootall_complete', cls='bounded', mode='plain', bound=ROOTS_BOUND, functions=['janet_gcunrootall'], unwind=7, checks=ROOTS_CHECKS, link=['wrap.c'], tier='thorough',
+     disabled_reason='GENUINE DEFECT (C API only): janet_gcunrootall does not re-examine the root it moves into the freed position, so with roots [A, A] one A survives '
+                     '(obligation "C01 roots: gcunrootall leaves no occurrence of the argument in the root set" fails; counterexample root_count = 2, both roots identical to the argument). '
+                     'C reproducer in harness/gc_roots.c. Not a memory-safety violation (an object stays rooted longer than documented).',
+     mutants=[dict(name='vtop-not-lowered', file='gc.c', find='            vtop--;\n', replace='', expect='C01 roots')])
+
+unit('gc.mark.abstract',
+     'janet_mark_abstract: an unmarked abstract value is marked on exit and its type\'s gcmark hook is called exactly once with (data, size); a marked one is left alone; a threaded abstract is '
+     'recorded as visited in janet_vm.threaded_abstracts (key = the value, value = true) instead',
+     'gc_mark_abstract.c', 'h_mark_abstract', nanbox=False, link=['wrap.c'],
+     enforce=['janet_mark_abstract/janet_mark_abstract_spec'], replace=['janet_table_put/janet_table_put_c'], functions=['janet_mark_abstract'],
+     assumes=['janet_table_put ' + REC, 'the only gcmark hook of the unit is the recording hook vc_gcmark', 'JANET_NO_NANBOX configuration of the same sources'],
+     mutants=[dict(name='hook-gets-head', file='gc.c', find='janet_abstract_head(adata)->type->gcmark(adata, janet_abstract_size(adata));', replace='janet_abstract_head(adata)->type->gcmark(janet_abstract_head(adata), janet_abstract_size(adata));', expect='postcondition'),
+              dict(name='threaded-not-recorded', file='gc.c', find='        janet_table_put(&janet_vm.threaded_abstracts, janet_wrap_abstract(adata), janet_wrap_true());\n', replace='', expect='postcondition'),
+              dict(name='no-mark', file='gc.c', find='    janet_gc_mark(janet_abstract_head(adata));\n', replace='', expect='postcondition')])
+unit('gc.mark.string', 'janet_mark_string marks the header of the string/symbol/keyword and writes nothing else',
+     'gc_mark_leaf.c', 'h_mark_string', enforce=['janet_mark_string/janet_mark_string_spec'], functions=['janet_mark_string'],
+     mutants=[dict(name='no-mark', file='gc.c', find='    janet_gc_mark(janet_string_head(str));', replace='    (void) janet_string_head(str);', expect='postcondition')])
+unit('gc.mark.buffer', 'janet_mark_buffer marks the header of the buffer and writes nothing else',
+     'gc_mark_leaf.c', 'h_mark_buffer', enforce=['janet_mark_buffer/janet_mark_buffer_spec'], functions=['janet_mark_buffer'],
+     mutants=[dict(name='no-mark', file='gc.c', find='    janet_gc_mark(buffer);', replace='    (void) buffer;', expect='postcondition')])
 
